@@ -107,3 +107,11 @@ Example C10_ex_cancel_after_wake :
                               Put 8; Get 0])
   = Some [ONone; ONone; ONone; ORaised; ONone; OGot 7; ONone; OClosed; OClosed].
 Proof. reflexivity. Qed.
+
+(** (A) the tie to /repo's current source: every function this property's models were transcribed from has, in the
+    tree this run is checking, the normalised source it had when the models were validated (hashes regenerated from
+    /repo into gen/Generated.v on every run; pins in gen/SourcePins.v).  A change to one of them invalidates the
+    transcription until it is re-validated. *)
+From UsimGen Require SourcePins Pin_C10.
+Theorem C10_modelled_source_unchanged : forallb SourcePins.pin_ok Pin_C10.pins = true.
+Proof. exact Pin_C10.src_unchanged. Qed.
